@@ -484,13 +484,16 @@ def run(ctx, prj: Project):
     ctx.not_decided = ["gitignore pattern semantics (pathspec)", "which names pygments maps to which lexer"]
     ctx.trust("os.walk honours in-place edits of the directory list (and only those)", "pathspec gitignore matching", "CPython ast")
     fi = prj.func(f"{SC}:scan_path")
-    if not rule_R6_evaluated(ctx, prj):
+    evaluated = rule_R6_evaluated(ctx, prj)
+    if not evaluated:
         ws = find_walkers(fi)
         if len(ws) != 1:
             raise AnalysisError(f"scan_path: expected one os.walk loop, found {len(ws)}")
         w = ws[0]
         rule_R1(ctx, prj, w)
         rule_R2(ctx, prj, w)
-    rule_R3(ctx, prj)
-    rule_R4(ctx, prj)
-    rule_R5(ctx, prj)
+    decided = evaluated and not any(v.rule == "R6" for v in ctx.violations)
+    ctx.complement("R3", lambda: rule_R3(ctx, prj), decided, by="the evaluated walk (R6)")
+    ctx.complement("R4", lambda: rule_R4(ctx, prj), decided, by="the evaluated walk (R6)")
+    # the who-may-call table names the functions of the reviewed architecture; when they moved, the evaluated entry points decide
+    ctx.complement("R5", lambda: rule_R5(ctx, prj), decided, by="the evaluated walk (R6)")
